@@ -52,7 +52,7 @@ def tlc(module, cfg, wd, workers=None, timeout=900, extra=None, env=None, simula
     meta = os.path.join(wd, "tlc-" + (name or cfg.replace(".cfg", "")))
     shutil.rmtree(meta, ignore_errors=True)
     os.makedirs(meta, exist_ok=True)
-    jopts = ["-XX:+UseParallelGC", "-Xmx" + heap, "-Xss512m"]
+    jopts = ["-XX:+UseParallelGC", "-Xmx" + heap, "-Xss512m", "-Djava.io.tmpdir=" + meta]     # (TLC leaves a tlc-<n> directory in the JVM's temp dir per run)
     cmd = ["java"] + jopts + ["-cp", JAR, "tlc2.TLC", "-metadir", meta, "-noGenerateSpecTE", "-config", os.path.join(SPEC, cfg)]
     if simulate:
         cmd += ["-simulate", simulate]
@@ -107,7 +107,7 @@ def tlc_trace(module, cfg, tracefile, wd, timeout=900, env=None, heap="4g"):
     meta = os.path.join(wd, "tlc-trace-" + module)
     shutil.rmtree(meta, ignore_errors=True)
     os.makedirs(meta, exist_ok=True)
-    cmd = ["java", "-XX:+UseParallelGC", "-Xmx" + heap, "-cp", JAR, "tlc2.TLC", "-metadir", meta, "-noGenerateSpecTE", "-workers", "1",
+    cmd = ["java", "-XX:+UseParallelGC", "-Xmx" + heap, "-Djava.io.tmpdir=" + meta, "-cp", JAR, "tlc2.TLC", "-metadir", meta, "-noGenerateSpecTE", "-workers", "1",
            "-config", os.path.join(SPEC, cfg), os.path.join(SPEC, module + ".tla")]
     rc, out, dt = sh(cmd, cwd=SPEC, env=e, timeout=timeout)
     shutil.rmtree(meta, ignore_errors=True)
